@@ -265,4 +265,223 @@ theorem placeRuns_spec {fill : Cell → Int → Cell} {fc : Int → Content} (hf
           show (rb.aborted || makeSpanAborts rb.cols (rb.cells line) (col + m) u) = rb.aborted
           rw [makeSpanAborts_false hwf hspan0 hcu hspanE, Bool.or_false]
 
+/-! ## Well-formedness of a whole buffer -/
+
+/-- A clipping rectangle is empty (`lines = 0`) or non-empty and inside the buffer. -/
+def ClipOK (lines cols : Int) (r : Rect) : Prop :=
+  r.lines = 0 ∨ (0 ≤ r.top ∧ r.bottom ≤ lines ∧ 0 ≤ r.left ∧ r.right ≤ cols ∧ 0 < r.lines ∧ 0 < r.cols)
+
+/-- The invariant of `struct TickitRenderBuffer`: runs tile every line, CONT cells point at their start,
+    LINE/CHAR cells have one column, mask depths lie in `[-1, depth]`, `depth` counts the stack, every clip
+    (current and saved) is empty or inside the buffer, and no `abort()` was reached. -/
+structure WF (rb : RB) : Prop where
+  rows : ∀ l, 0 ≤ l → l < rb.lines → RowWF rb.cols (rb.cells l)
+  maskLB : ∀ l c, -1 ≤ (rb.cell l c).maskdepth
+  maskUB : ∀ l c, (rb.cell l c).maskdepth ≤ rb.depth
+  depth : rb.depth = rb.stack.length
+  clip : ClipOK rb.lines rb.cols rb.clip
+  frames : ∀ f, f ∈ rb.stack → f.penOnly = false → ClipOK rb.lines rb.cols f.clip
+  aborted : rb.aborted = false
+  fuelOut : rb.fuelOut = false
+
+theorem absClipRect_iff (r : Rect) (L C : Int) :
+    absClipRect r L C = true ↔ (r.lines ≠ 0 ∧ r.top ≤ L ∧ L < r.top + r.lines ∧ r.left ≤ C ∧ C < r.left + r.cols) := by
+  unfold absClipRect Rect.memb Rect.bottom Rect.right
+  simp only [Bool.and_eq_true, decide_eq_true_eq]
+  constructor
+  · rintro ⟨a, ⟨⟨b, c⟩, d⟩, e⟩; exact ⟨a, b, c, d, e⟩
+  · rintro ⟨a, b, c, d, e⟩; exact ⟨a, ⟨⟨b, c⟩, d⟩, e⟩
+
+/-- `xlate_and_clip` succeeded: the clipped run lies inside the buffer and is exactly the part of the
+    requested run that is inside the clipping region. -/
+theorem xlateAndClip_some {rb : RB} (hclip : ClipOK rb.lines rb.cols rb.clip) {line col cols : Int} {r : Clipped}
+    (h : xlateAndClip rb line col cols = some r) :
+    r.line = line + rb.xlLine ∧ 0 ≤ r.line ∧ r.line < rb.lines ∧ 0 ≤ r.col ∧ 1 ≤ r.cols ∧ r.col + r.cols ≤ rb.cols ∧
+    r.startcol = r.col - (col + rb.xlCol) ∧
+    (∀ C, (r.col ≤ C ∧ C < r.col + r.cols) ↔
+      (col + rb.xlCol ≤ C ∧ C < col + rb.xlCol + cols ∧ absClipRect rb.clip r.line C = true)) := by
+  unfold xlateAndClip at h
+  simp only at h
+  unfold ClipOK Rect.bottom Rect.right at hclip
+  unfold Rect.bottom Rect.right at h
+  by_cases h1 : rb.clip.lines = 0
+  · rw [if_pos h1] at h; cases h
+  · rw [if_neg h1] at h
+    by_cases h2 : line + rb.xlLine < rb.clip.top ∨ line + rb.xlLine ≥ rb.clip.top + rb.clip.lines ∨
+        col + rb.xlCol ≥ rb.clip.left + rb.clip.cols
+    · rw [if_pos h2] at h; cases h
+    · rw [if_neg h2] at h
+      by_cases h3 : col + rb.xlCol < rb.clip.left
+      · simp only [h3, if_true] at h
+        by_cases h4 : cols - (rb.clip.left - (col + rb.xlCol)) ≤ 0
+        · rw [if_pos h4] at h; cases h
+        · rw [if_neg h4] at h
+          injection h with h
+          subst h
+          simp only
+          refine ⟨trivial, by omega, by omega, by omega, ?_, ?_, by first | trivial | omega, ?_⟩
+          · split <;> omega
+          · split <;> omega
+          intro C
+          rw [absClipRect_iff]
+          split <;> omega
+      · simp only [h3, if_false] at h
+        by_cases h4 : cols ≤ 0
+        · rw [if_pos h4] at h; cases h
+        · rw [if_neg h4] at h
+          injection h with h
+          subst h
+          simp only
+          refine ⟨trivial, by omega, by omega, by omega, ?_, ?_, by first | trivial | omega, ?_⟩
+          · split <;> omega
+          · split <;> omega
+          intro C
+          rw [absClipRect_iff]
+          split <;> omega
+
+theorem xlateAndClip_none {rb : RB} {line col cols : Int} (h : xlateAndClip rb line col cols = none) (C : Int) :
+    ¬ (col + rb.xlCol ≤ C ∧ C < col + rb.xlCol + cols ∧ absClipRect rb.clip (line + rb.xlLine) C = true) := by
+  unfold xlateAndClip at h
+  simp only at h
+  unfold Rect.bottom Rect.right at h
+  rw [absClipRect_iff]
+  by_cases h1 : rb.clip.lines = 0
+  · omega
+  · rw [if_neg h1] at h
+    by_cases h2 : line + rb.xlLine < rb.clip.top ∨ line + rb.xlLine ≥ rb.clip.top + rb.clip.lines ∨
+        col + rb.xlCol ≥ rb.clip.left + rb.clip.cols
+    · omega
+    · rw [if_neg h2] at h
+      by_cases h3 : col + rb.xlCol < rb.clip.left
+      · simp only [h3, if_true] at h
+        by_cases h4 : cols - (rb.clip.left - (col + rb.xlCol)) ≤ 0
+        · omega
+        · rw [if_neg h4] at h; cases h
+      · simp only [h3, if_false] at h
+        by_cases h4 : cols ≤ 0
+        · omega
+        · rw [if_neg h4] at h; cases h
+
+/-- Well-formedness carries over to a buffer with the same auxiliary state, well-formed lines and the same
+    mask depths. -/
+theorem WF.transfer {rb rb' : RB} (wf : WF rb) (haux : rb'.aux = rb.aux)
+    (hrows : ∀ l, 0 ≤ l → l < rb.lines → RowWF rb.cols (rb'.cells l))
+    (hmd : ∀ l c, (rb'.cell l c).maskdepth = (rb.cell l c).maskdepth)
+    (ha : rb'.aborted = rb.aborted) (hfo : rb'.fuelOut = rb.fuelOut) : WF rb' := by
+  have e1 : rb'.lines = rb.lines := congrArg Aux.lines haux
+  have e2 : rb'.cols = rb.cols := congrArg Aux.cols haux
+  have e3 : rb'.depth = rb.depth := congrArg Aux.depth haux
+  have e4 : rb'.stack = rb.stack := congrArg Aux.stack haux
+  have e5 : rb'.clip = rb.clip := congrArg Aux.clip haux
+  refine ⟨?_, ?_, ?_, ?_, ?_, ?_, ?_, ?_⟩
+  · intro l a b; rw [e2]; exact hrows l a (by omega)
+  · intro l c; rw [hmd]; exact wf.maskLB l c
+  · intro l c; rw [hmd, e3]; exact wf.maskUB l c
+  · rw [e3, e4]; exact wf.depth
+  · rw [e1, e2, e5]; exact wf.clip
+  · rw [e1, e2, e4]; exact wf.frames
+  · rw [ha]; exact wf.aborted
+  · rw [hfo]; exact wf.fuelOut
+
+/-- The common shape of `skip`, `erase` and `put_string` (after the width count). -/
+def runOp (fill : Cell → Int → Cell) (sc : Clipped → Int) (rb : RB) (line col cols : Int) : RB :=
+  match xlateAndClip rb line col cols with
+  | none => rb
+  | some r => placeRuns fill r.line (r.cols.toNat + 1) rb r.col r.cols (sc r)
+
+theorem skipRun_eq (rb : RB) (l c n : Int) : skipRun rb l c n = runOp fillSkip (fun _ => 0) rb l c n := rfl
+theorem eraseRun_eq (rb : RB) (l c n : Int) : eraseRun rb l c n = runOp (fillErase rb.pen) (fun _ => 0) rb l c n := rfl
+theorem putStringCols_eq (rb : RB) (l c : Int) (s : List UInt8) (n : Int) :
+    putStringCols rb l c s n = runOp (fillText rb.pen s) (fun r => r.startcol) rb l c n := rfl
+
+theorem fillSkip_spec : FillSpec fillSkip (fun _ => .skip) :=
+  ⟨fun _ _ => rfl, fun _ _ => rfl, fun _ _ => rfl, fun _ _ _ => rfl⟩
+theorem fillErase_spec (pen : Pen) : FillSpec (fillErase pen) (fun _ => .erase pen) :=
+  ⟨fun _ _ => rfl, fun _ _ => rfl, fun _ _ => rfl, fun _ _ _ => rfl⟩
+theorem fillText_spec (pen : Pen) (s : List UInt8) : FillSpec (fillText pen s) (fun x => .text pen s x) :=
+  ⟨fun _ _ => rfl, fun _ _ => rfl, fun _ _ => rfl, fun _ _ _ => rfl⟩
+
+theorem absMasked_false_iff {rb : RB} (wf : WF rb) {L C : Int} (hb : inBuf rb.lines rb.cols L C = true) :
+    absMasked rb L C = false ↔ (rb.cell L C).maskdepth = -1 := by
+  unfold absMasked
+  rw [hb, Bool.true_and]
+  have := wf.maskLB L C
+  simp only [decide_eq_false_iff_not]
+  omega
+
+theorem inBuf_iff (lines cols L C : Int) : inBuf lines cols L C = true ↔ (0 ≤ L ∧ L < lines ∧ 0 ≤ C ∧ C < cols) := by
+  unfold inBuf; simp only [Bool.and_eq_true, decide_eq_true_eq]
+  constructor
+  · rintro ⟨⟨⟨a, b⟩, c⟩, d⟩; exact ⟨a, b, c, d⟩
+  · rintro ⟨a, b, c, d⟩; exact ⟨⟨⟨a, b⟩, c⟩, d⟩
+
+/-- **A run operation, cell-wise**: the buffer stays well-formed, the auxiliary state and every mask depth are
+    untouched, and exactly the cells of the requested run (shifted by the translation) that lie inside the
+    clipping region and are not masked change, to the operation's own content. -/
+theorem runOp_spec {fill : Cell → Int → Cell} {fc : Int → Content} (hf : FillSpec fill fc) {rb : RB} (wf : WF rb)
+    (line col cols : Int) (sc : Clipped → Int) (g : Int → Content)
+    (hg : ∀ r, xlateAndClip rb line col cols = some r → ∀ C, fc (sc r + (C - r.col)) = g (C - (col + rb.xlCol))) :
+    WF (runOp fill sc rb line col cols) ∧ (runOp fill sc rb line col cols).aux = rb.aux ∧
+    (∀ L C, ((runOp fill sc rb line col cols).cell L C).maskdepth = (rb.cell L C).maskdepth) ∧
+    (∀ L C, absContent (runOp fill sc rb line col cols) L C =
+      if L = line + rb.xlLine ∧ col + rb.xlCol ≤ C ∧ C < col + rb.xlCol + cols ∧
+         absClipRect rb.clip L C = true ∧ absMasked rb L C = false
+      then g (C - (col + rb.xlCol)) else absContent rb L C) := by
+  unfold runOp
+  cases hx : xlateAndClip rb line col cols with
+  | none =>
+    refine ⟨wf, rfl, fun _ _ => rfl, fun L C => ?_⟩
+    rw [if_neg]
+    intro x
+    have := xlateAndClip_none hx C
+    rw [← x.1] at this
+    exact this ⟨x.2.1, x.2.2.1, x.2.2.2.1⟩
+  | some r =>
+    simp only
+    obtain ⟨r1, r2, r3, r4, r5, r6, r7, r8⟩ := xlateAndClip_some wf.clip hx
+    have P := placeRuns_spec hf r.line (r.cols.toNat + 1) rb r.col r.cols (sc r) (wf.rows r.line r2 r3)
+      (fun k => wf.maskLB r.line k) r4 (by omega) r6 (by omega)
+    have hmd : ∀ L C, ((placeRuns fill r.line (r.cols.toNat + 1) rb r.col r.cols (sc r)).cell L C).maskdepth =
+        (rb.cell L C).maskdepth := by
+      intro L C
+      unfold RB.cell
+      by_cases hl : L = r.line
+      · rw [hl]; exact P.md C
+      · rw [P.other L hl]
+    have e1 : (placeRuns fill r.line (r.cols.toNat + 1) rb r.col r.cols (sc r)).lines = rb.lines := congrArg Aux.lines P.aux
+    have e2 : (placeRuns fill r.line (r.cols.toNat + 1) rb r.col r.cols (sc r)).cols = rb.cols := congrArg Aux.cols P.aux
+    refine ⟨?_, P.aux, hmd, ?_⟩
+    · apply wf.transfer P.aux _ hmd P.aborted P.fuelOut
+      intro l a b
+      by_cases hl : l = r.line
+      · rw [hl]; exact P.wf
+      · rw [P.other l hl]; exact wf.rows l a b
+    · intro L C
+      rw [absContent_eq, absContent_eq, e1, e2]
+      by_cases hb : inBuf rb.lines rb.cols L C = true
+      · rw [if_pos hb, if_pos hb]
+        have hb' := (inBuf_iff _ _ _ _).1 hb
+        by_cases hl : L = r.line
+        · rw [hl, P.content C hb'.2.2.1 hb'.2.2.2]
+          rw [hl] at hb
+          have hm := absMasked_false_iff wf hb
+          unfold RB.cell at hm
+          have h8 := r8 C
+          by_cases p : r.col ≤ C ∧ C < r.col + r.cols ∧ ((rb.cells r.line).get C).maskdepth = -1
+          · rw [if_pos p, if_pos ⟨r1, (h8.1 ⟨p.1, p.2.1⟩).1, (h8.1 ⟨p.1, p.2.1⟩).2.1, (h8.1 ⟨p.1, p.2.1⟩).2.2, hm.2 p.2.2⟩]
+            exact hg r hx C
+          · rw [if_neg p, if_neg]
+            intro x
+            exact p ⟨(h8.2 ⟨x.2.1, x.2.2.1, x.2.2.2.1⟩).1, (h8.2 ⟨x.2.1, x.2.2.1, x.2.2.2.1⟩).2, hm.1 x.2.2.2.2⟩
+        · rw [P.other L hl, if_neg]
+          intro x; exact hl (x.1.trans r1.symm)
+      · rw [if_neg hb, if_neg hb, if_neg]
+        intro x
+        have := (absClipRect_iff _ _ _).1 x.2.2.2.1
+        have hc := wf.clip
+        unfold ClipOK Rect.bottom Rect.right at hc
+        apply hb
+        rw [inBuf_iff]
+        omega
+
 end Tickit.RB
